@@ -9,8 +9,16 @@ FIELDS_RE = re.compile(r'(\{[^\}]+\})')
 KEY_RE = re.compile(r'[^!:\}]+')
 
 
+def escape(part):
+    # NUL terminates the parts of a key: a NUL (and the escape character itself) inside a part
+    # is rewritten so that the order of the parts is kept ('a' < 'a\x00' < 'a\x01' < 'ab')
+    return part.replace('\x01', '\x01\x02').replace('\x00', '\x01\x01')
+
+
 class KeyCalc(object):
     def __init__(self, key_spec):
+        # the text a user-supplied callable returns is one part
+        self.user_callable = callable(key_spec)
         self.calculator = self.__calculator(key_spec)
 
     def __calculator(self, key_spec):
@@ -42,9 +50,9 @@ class KeyCalc(object):
                     # every part ends with a NUL (which sorts before any other character),
                     # so that the key compares field by field
                     if formatters:
-                        ret += formatters[i].format(**{key: value}) + '\x00'
+                        ret += escape(formatters[i].format(**{key: value})) + '\x00'
                     else:
-                        ret += str(value) + '\x00'
+                        ret += escape(str(value)) + '\x00'
                 return ret
             return func
         assert False, 'key should be either a format string or a row->string callable'
@@ -58,7 +66,10 @@ def _sorter(rows, key_calc, reverse, batch_size):
 
     def process(rows):
         for row_num, row in enumerate(rows):
-            key = key_calc(row) + '\x00{:08x}'.format(row_num)
+            key = key_calc(row)
+            if key_calc.user_callable:
+                key = escape(key)
+            key = key + '\x00{:08x}'.format(row_num)
             yield (key, row)
 
     db.insert(process(rows), batch_size=batch_size)
